@@ -262,6 +262,27 @@ func dblc(rng *rand.Rand, G float64, U int64) [][]ipt {
 }
 
 // edgehole: a rectangle with a small hole within a pixel of one of its sides or corners (top/right ones included)
+// manyholes: a rectangle with 66 small triangular holes and then three hourglass-shaped holes whose waist lies inside one pixel (they pinch when
+// snapped and must be split in two): rings with indexes beyond 64, where per-ring bookkeeping packed into a machine word runs out
+func manyholes(rng *rand.Rand, G float64, U int64) [][]ipt {
+	if G < 24 || U < 4 {
+		return nil
+	}
+	dx, dy := rng.Int63n(U), rng.Int63n(U)
+	rings := [][]ipt{{{1, 1}, {24*U - 2, 1}, {24*U - 2, 24*U - 2}, {1, 24*U - 2}}}
+	for j := int64(0); j < 6; j++ {
+		for i := int64(0); i < 11; i++ {
+			ox, oy := U+2*U*i+dx, U+2*U*j+dy
+			rings = append(rings, []ipt{{ox + 1, oy + 1}, {ox + 1, oy + U + 2}, {ox + U + 2, oy + 1}})
+		}
+	}
+	for _, x0 := range []int64{U, 6 * U, 11 * U} {
+		x, y := x0+dx, 14*U+dy
+		rings = append(rings, []ipt{{x, y}, {x + U + 1, y + U + 1}, {x, y + 3*U - 1}, {x + 3*U - 1, y + 3*U - 1}, {x + U + 3, y + U + 1}, {x + 3*U - 1, y}})
+	}
+	return rings
+}
+
 // pinhole: a rectangle with a hole smaller than a deepest pixel that sits in a pixel one of the shell's sides passes through (the hole collapses
 // to a point on every level, but its pixel is hot: the side must be routed through its centre); sometimes a second, ordinary hole as well
 func pinhole(rng *rand.Rand, G float64, U int64) [][]ipt {
@@ -695,6 +716,7 @@ func initWindows() {
 		{gs: wm, baseX: 550000, baseY: 6800000, G: 24, maxID: 18, minID: 16, weight: 2, far: true},
 		{gs: wm, baseX: -0.25, baseY: -0.2, G: 24, maxID: 18, minID: 16, weight: 1},       // astride the centre lines of the extent (root quadrants; the extent does not divide evenly here)
 		{gs: wm, baseX: 15550000, baseY: 4250000, G: 24, maxID: 20, minID: 19, weight: 1}, // levels 31 and 32, far from the origin
+		{gs: wm, baseX: -8240000, baseY: -4120000, G: 24, maxID: 18, minID: 16, weight: 1}, // negative ordinates beyond 2^53 units of 1e-10 (the south-west)
 		{gs: laea, baseX: 4000000, baseY: 3200000, G: 24, maxID: 14, minID: 12, weight: 2},
 	}
 }
@@ -753,6 +775,11 @@ func genCase(rng *rand.Rand, w window, valid bool, maxv int) *snapCase {
 			rings, fam = fr, "far"
 		}
 	}
+	if valid && (rng.Intn(60) == 0 || onlyFamily == "manyholes") && (onlyFamily == "" || onlyFamily == "manyholes") {
+		if mh := manyholes(rng, w.G, U); mh != nil && validPolygon(mh) {
+			rings, fam = mh, "manyholes"
+		}
+	}
 	// POLYGON EMPTY: a polygon of no rings at all
 	if rng.Intn(80) == 0 && (onlyFamily == "" || onlyFamily == "empty") {
 		rings, fam = [][]ipt{}, "empty"
@@ -776,6 +803,10 @@ func genCase(rng *rand.Rand, w window, valid bool, maxv int) *snapCase {
 				c.tmids = append(c.tmids, id)
 			}
 		}
+	}
+	if w.gs.round && w.minID >= 4 && rng.Intn(6) == 0 {
+		// a much coarser tile matrix as well, on which the polygon is a fraction of a pixel: what collapses there must not leak into the finer ones
+		c.tmids = append(c.tmids, rng.Intn(w.minID-2))
 	}
 	if rng.Intn(3) == 0 { // request order should not matter
 		rng.Shuffle(len(c.tmids), func(i, j int) { c.tmids[i], c.tmids[j] = c.tmids[j], c.tmids[i] })
